@@ -205,13 +205,29 @@ class Cache(object):
 
     def _dump_flow_and_yield(self, flow):
         # fill cache and yield values
-        with open(self._filename, "wb") as f:
-            dump = lambda val: self._dump(val, f, self.protocol)
-            for val in flow:
-                # if there were an error in a next element,
-                # our value will be saved first (before yielding)
-                dump(val)
-                yield val
+        # The cache is published under its final name only after
+        # the whole flow was dumped: an interrupted run
+        # (a consumer that stops or an element that raises)
+        # must not leave a truncated cache.
+        tmp_filename = self._filename + ".tmp"
+        complete = False
+        try:
+            with open(tmp_filename, "wb") as f:
+                dump = lambda val: self._dump(val, f, self.protocol)
+                for val in flow:
+                    dump(val)
+                    yield val
+            complete = True
+        finally:
+            if complete:
+                # os.replace is missing in Python 2
+                replace = getattr(os, "replace", os.rename)
+                replace(tmp_filename, self._filename)
+            else:
+                try:
+                    os.remove(tmp_filename)
+                except OSError:
+                    pass
 
 
     def _load_flow(self):
